@@ -77,7 +77,19 @@ pub fn gen_bytes(rng: &mut Rng) -> Vec<u8> {
         _ => {
             let mut b = gen_valid(rng, 4);
             // terminator shape
-            match rng.below(9) {
+            match rng.below(11) {
+                9 | 10 => {
+                    // stale entries behind a terminator: a zero tag whose "length" bytes are not zero,
+                    // that many bytes, then well-formed entries of the table tags
+                    b.extend([0u8; 8]);
+                    let k = rng.range(1, 6) as usize;
+                    b.extend((k as u32).to_le_bytes());
+                    b.extend(rng.bytes(k));
+                    b.extend(gen_valid(rng, 3));
+                    if rng.chance(1, 2) {
+                        b.extend(vec![0u8; rng.below(12) as usize]);
+                    }
+                }
                 0 => {}
                 1 => b.extend(vec![0u8; rng.range(1, 7) as usize]),
                 2 => b.extend(vec![0u8; rng.range(8, 11) as usize]),
@@ -183,6 +195,22 @@ pub fn run_one(rep: &mut Report, rng: &mut Rng, bytes: &[u8], to_coq: bool) {
         // every (tag, repetition) query, through a view
         for t in 0..NTAGS {
             let mine: Vec<&([u8; 8], usize, usize)> = es.iter().filter(|e| e.0 == TAGS[t]).collect();
+            // repetition numbers that wrap to an existing entry in a narrower counter must fail
+            for base in 0..mine.len().min(3) {
+                for wrap in [256usize, 65_536, 1usize << 32, (1usize << 32) + 256] {
+                    let view = *rng.pick(&[View::Mut, View::Borrowed, View::Owned]);
+                    let r = base + wrap;
+                    let g = get_bytes_view(buf, t, r, view);
+                    if !g.is_err() {
+                        rep.violate("lookup-mismatch", "a lookup with a repetition number beyond the entries of the type succeeded (counter wrapped?)",
+                            serde_json::json!({"bytes": emit::hex(bytes), "tag": t, "rep": r, "view": format!("{:?}", view), "observed": format!("{:?}", g)}).to_string());
+                    }
+                    if to_coq && wrap >= 65_536 {
+                        items.push(format!("IGet {} {} {}", emit_tag(t), r, g.emit(|(off, v)| format!("({}, {}, {})", off, v.len(), cksum(v)))));
+                    }
+                }
+            }
+            let _ = usize::MAX;
             for r in 0..=mine.len() + 1 {
                 let view = *rng.pick(&[View::Mut, View::Borrowed, View::Owned]);
                 let g = get_bytes_view(buf, t, r, view);
@@ -234,6 +262,82 @@ pub fn run_one(rep: &mut Report, rng: &mut Rng, bytes: &[u8], to_coq: bool) {
     }
 }
 
+/// large inputs (monitor only, linear checks): thousands of entries, entries longer than 2^16 / 2^24
+/// bytes, every terminator shape behind them
+pub fn run_big(rep: &mut Report, rng: &mut Rng) {
+    let mut cases: Vec<Vec<(usize, usize)>> = Vec::new(); // (tag index, value length) lists
+    for count in [257usize, 1100, 4200, 66_000] {
+        cases.push((0..count).map(|i| (if i % 89 == 3 { 1 } else { 0 }, i % 2)).collect());
+    }
+    for l in [65_535usize, 65_536, 65_537, (1 << 24) - 1, 1 << 24, (1 << 24) + 1, 10 * 1024 * 1024 + 1] {
+        cases.push(vec![(2, 3), (0, l), (1, 1), (0, 2)]);
+    }
+    for es in cases {
+        let mut bytes: Vec<u8> = Vec::new();
+        let mut offs: Vec<usize> = Vec::new();
+        for (t, l) in &es {
+            bytes.extend_from_slice(&TAGS[*t]);
+            bytes.extend_from_slice(&(*l as u32).to_le_bytes());
+            offs.push(bytes.len());
+            let start = bytes.len();
+            bytes.resize(start + l, 0);
+            for (j, b) in bytes[start..].iter_mut().enumerate().take(64) {
+                *b = (j as u8) ^ 0x5c;
+            }
+        }
+        for tail in 0..4usize {
+            let mut b = bytes.clone();
+            let (accept, nlisted) = match tail {
+                0 => (true, es.len()),
+                1 => { b.extend_from_slice(&[0u8; 5]); (true, es.len()) }
+                2 => { b.extend_from_slice(&[0u8; 8]); b.extend_from_slice(&[7u8; 9]); (true, es.len()) }
+                _ => { b.extend_from_slice(&[0, 0, 0, 9, 0]); (false, 0) }
+            };
+            let shifted_store = emit::Shifted::new(&b, rng.below(8) as usize);
+            let mut copy = shifted_store;
+            let buf = copy.bytes_mut();
+            rep.count("parse:large");
+            rep.monitor_runs += 1;
+            let det = |what: &str| serde_json::json!({"what": what, "entries": es.len(), "first_entries": format!("{:?}", &es[..es.len().min(6)]), "tail_shape": tail, "total_len": b.len()}).to_string();
+            for view in [View::Mut, View::Borrowed, View::Owned] {
+                let r = open_view(buf, view);
+                if r.is_panic() || (r.is_ok() != accept) {
+                    rep.violate("accept-mismatch:large", "acceptance of a large input differs from the format", det(&format!("open {:?}: {:?}", view, r.kind())));
+                }
+                if !accept {
+                    continue;
+                }
+                let ds = discs_view(buf, view);
+                if !matches!(&ds, Res::Ok(d) if d.len() == nlisted && d.iter().zip(es.iter()).all(|(x, (t, _))| *x == TAGS[*t])) {
+                    rep.violate("listing:large", "listed types of a large input are not the entries in order", det(&format!("{:?}", view)));
+                }
+                // sampled lookups: offset and length of the n-th entry of its type; one past the last repetition fails
+                let mut cnt = [0usize; 8];
+                let mut reps = Vec::with_capacity(es.len());
+                for (t, _) in &es {
+                    reps.push(cnt[*t]);
+                    cnt[*t] += 1;
+                }
+                let ne = es.len();
+                let mut sample = vec![0usize, 1, 2, 3, 254, 255, 256, 257, 1023, 1024, 1025, 4095, 4096, 65_535, 65_536, ne - 1];
+                sample.retain(|i| *i < ne);
+                for i in sample {
+                    let (t, l) = es[i];
+                    let g = get_bytes_view(buf, t, reps[i], view);
+                    if !matches!(&g, Res::Ok((o, v)) if *o == offs[i] && v.len() == l && v.iter().take(64).enumerate().all(|(j, x)| *x == (j as u8) ^ 0x5c)) {
+                        rep.violate("lookup:large", "lookup in a large input does not return the n-th entry of the type at its true offset", det(&format!("{:?} entry {} tag {} rep {}", view, i, t, reps[i])));
+                    }
+                }
+                for t in 0..3usize {
+                    if !get_bytes_view(buf, t, cnt[t], view).is_err() {
+                        rep.violate("lookup:large", "a lookup one past the last repetition succeeded", det(&format!("{:?} tag {}", view, t)));
+                    }
+                }
+            }
+        }
+    }
+}
+
 pub fn run(ctx: &Ctx) -> Report {
     let mut rep = Report::new("C02");
     rep.corr_module = "Tlv".into();
@@ -257,6 +361,7 @@ pub fn run(ctx: &Ctx) -> Report {
     for b in &corpus {
         run_one(&mut rep, &mut rng, b, true);
     }
+    run_big(&mut rep, &mut rng);
     if ctx.tier_thorough {
         // all strings of length <= 2 and all single-byte mutations of a 3-entry slab
         for a in 0..=255u8 {
